@@ -95,7 +95,10 @@ def run_cli(shard, ctx):
             cr = cli_runs.text_case(rng, d, fmt="tpf", tagged=rng.random() < 0.5)
             fmt = "tpf"
         else:
-            cr = cli_runs.text_case(rng, d, fmt="agp", tagged=rng.random() < 0.5, two_hap=rng.random() < 0.3)
+            forced = i % 12 == 2  # Primary mode with several other curated assemblies (merged into all_haplotigs)
+            cr = cli_runs.text_case(rng, d, fmt="agp", tagged=rng.random() < 0.5, two_hap=forced or rng.random() < 0.45, unprefixed=True, primary=True if forced else None)
+            if (cr.get("design") or {}).get("primary") and "tag:unprefixed-scaffold-in-haplotype-map" in cr["labels"]:
+                ctx.count("cli:primary-mode-with-several-other-assemblies")
             fmt = rng.choice(["agp", "tpf"])
         try:
             check_cli(cr, ctx, fmt)
@@ -138,12 +141,14 @@ def gates(c, tier):
         "partition-ok:tag": 200,
         "partition-ok:tag2": 100,
         "partition-ok:cli-files": 20,
+        "cli:primary-mode-with-several-other-assemblies": 3,
         "out:multi-assembly": 100,
         "out:with-cuts": 300,
         "label:in:both-strands": 500,
         "label:in:1bp-contig": 100,
         "label:hostile:overlap": 50,
         "label:hostile:arbitrary": 50,
+        "label:in:scaffold-name-in-two-blocks": 50,
     }
     out = [f"{k}>={v} (got {c.get(k, 0)})" for k, v in need.items() if c.get(k, 0) < v]
     comp, err = c.get("remap:hostile:completed", 0), c.get("remap:hostile:error", 0)
